@@ -4,6 +4,10 @@ use vh::ev::{Report, Tier};
 
 fn main() {
     let args: Vec<String> = std::env::args().collect();
+    if args.len() == 2 && args[1] == "c14-deep" {
+        vh::c14::deep_child();
+        return;
+    }
     if args.len() < 3 {
         eprintln!("usage: vcheck <ID> <quick|thorough> [--replay file]");
         std::process::exit(2);
